@@ -49,6 +49,14 @@ func Execute(t *Text) (o Outcome) {
 	}
 	rb := builder.NewRuleBuilder(dc)
 	o.CompileErr = trace.CompileLocked(func() error {
+		if Redelivered(t) {
+			// the same rules were delivered before, at another place of an earlier text (five lines further
+			// down); the text compiled LAST is the one whose lines must be cited
+			if err := rb.BuildRuleFromString("\n// an earlier delivery\n\n\n\n" + t.Src); err != nil {
+				return fmt.Errorf("earlier delivery: %v", err)
+			}
+			return rb.BuildRuleWithIncremental(t.Src)
+		}
 		if t.Incremental {
 			if err := rb.BuildRuleFromString(t.Base); err != nil {
 				return fmt.Errorf("base text: %v", err)
@@ -70,6 +78,9 @@ func Execute(t *Text) (o Outcome) {
 	}()
 	return o
 }
+
+// Redelivered: one text in five is delivered twice (see Execute).
+func Redelivered(t *Text) bool { return len(t.Src)%5 == 0 }
 
 // Verdict of the oracle for one executed text.
 type Verdict struct {
@@ -154,6 +165,9 @@ func Run(k *fw.Case) {
 	if t.Incremental {
 		k.Count("installed_incremental", 1)
 	}
+	if Redelivered(t) {
+		k.Count("delivered_twice_at_different_lines", 1)
+	}
 	if t.CRLF {
 		k.Count("crlf_texts", 1)
 	}
@@ -180,7 +194,7 @@ func Run(k *fw.Case) {
 				t.Fault.Text, t.Carrier, t.Place, t.L)
 		}
 		k.Violate(v.Kind+"/"+t.Fault.Class+"/"+t.Encl, what, map[string]interface{}{
-			"text": t.Src, "base_text": t.Base, "incremental": t.Incremental, "L": t.L, "class": t.Fault.Class, "variant": t.Fault.Variant,
+			"text": t.Src, "base_text": t.Base, "incremental": t.Incremental, "delivered_twice": Redelivered(t), "L": t.L, "class": t.Fault.Class, "variant": t.Fault.Variant,
 			"construct": t.Fault.Text, "enclosing": t.Encl, "carrier": t.Carrier, "place": t.Place, "citations": v.Citations,
 			"error": clip(msg, 400),
 		})
